@@ -8,13 +8,23 @@ import (
 	"fmt"
 	"net"
 	"os"
+	"regexp"
 	"runtime"
+	"sort"
+	"strings"
 	"sync"
 	"sync/atomic"
 	"syscall"
 	"time"
 
 	tq "github.com/facebookincubator/tacquito"
+	"github.com/facebookincubator/tacquito/cmds/server/config"
+	"github.com/facebookincubator/tacquito/cmds/server/config/authenticators/bcrypt"
+	"github.com/facebookincubator/tacquito/cmds/server/config/authorizers/stringy"
+	"github.com/facebookincubator/tacquito/cmds/server/config/secret"
+	"github.com/facebookincubator/tacquito/cmds/server/config/secret/prefix"
+	"github.com/facebookincubator/tacquito/cmds/server/handlers"
+	"github.com/facebookincubator/tacquito/cmds/server/loader"
 )
 
 // C17 / C20 / C14 (accept loop): schedules of environment actions replayed on the real Serve with a fake
@@ -24,33 +34,44 @@ type LScen struct {
 	ID     string          `json:"id"`
 	Steps  [][]interface{} `json:"steps"`
 	Refuse []int           `json:"refuse,omitempty"` // connections the secret provider refuses
+	Loader bool            `json:"loader,omitempty"` // admission goes through a real loader.Loader that shares Serve's context (as cmds/server/main.go wires it)
 }
 
 type lifeRun struct {
-	rec      *Rec
-	mu       sync.Mutex
-	lis      *FakeListener
-	clk      *Clock
-	conns    map[int]*FakeConn
-	hgate    map[int]chan struct{}
-	hwait    map[int]bool
-	done     map[int]bool
-	refuse   map[int]bool
-	pend     map[int][]byte    // bytes of a packet being dribbled
-	wantNext map[int]bool      // the next handler invocation on this connection registers a continuation
-	sess     map[int][2]uint32 // open exchange of a connection: session id, next client sequence number
-	nsid     uint32
-	served   chan struct{}
-	burst    int32   // bursts: completion events are noted without locks and written out once everything is parked
-	doneA    []int32 // per connection: goroutine finished (noted by the hook during a burst)
-	nextID   int
-	base     G4
-	ret      bool
-	cancel   context.CancelFunc
+	rec       *Rec
+	mu        sync.Mutex
+	lis       *FakeListener
+	clk       *Clock
+	conns     map[int]*FakeConn
+	hgate     map[int]chan struct{}
+	hwait     map[int]bool
+	done      map[int]bool
+	refuse    map[int]bool
+	pend      map[int][]byte    // bytes of a packet being dribbled
+	wantNext  map[int]bool      // the next handler invocation on this connection registers a continuation
+	sess      map[int][2]uint32 // open exchange of a connection: session id, next client sequence number
+	nsid      uint32
+	served    chan struct{}
+	burst     int32   // bursts: completion events are noted without locks and written out once everything is parked
+	doneA     []int32 // per connection: goroutine finished (noted by the hook during a burst)
+	nextID    int
+	base      G4
+	nblocked  int
+	unsettled bool
+	ld        *loader.Loader // real loader consulted by Get (scenarios with "loader")
+	ret       bool
+	cancel    context.CancelFunc
 }
 
 func (r *lifeRun) Get(ctx context.Context, remote net.Addr) ([]byte, tq.Handler, error) {
 	c := remote.(*net.TCPAddr).Port - 20000
+	if r.ld != nil {
+		// the real admission path: what it answers only decides served / refused here (key and handler stay the harness's)
+		if _, _, err := r.ld.Get(ctx, remote); err != nil {
+			r.rec.Emit(E{"e": "lookup", "c": c, "ok": false})
+			return nil, nil, err
+		}
+	}
 	if atomic.LoadInt32(&r.burst) == 1 {
 		// a burst: every connection is refused at once, nothing is recorded on the way
 		return nil, nil, fmt.Errorf("refused by the harness")
@@ -148,7 +169,11 @@ func (r *lifeRun) parked() (bool, string) {
 func (r *lifeRun) settle() {
 	stable := 0
 	lastN := -1
-	for i := 0; i < 22000; i++ {
+	budget := 6000
+	if r.unsettled {
+		budget = 300 // this scenario already has a goroutine that does not park: do not wait seconds again at every step
+	}
+	for i := 0; i < budget; i++ {
 		ok, _ := r.parked()
 		r.rec.mu.Lock()
 		n := r.rec.N
@@ -169,6 +194,7 @@ func (r *lifeRun) settle() {
 		}
 	}
 	_, who := r.parked()
+	r.unsettled = true
 	r.rec.Emit(E{"e": "unsettled", "who": who})
 }
 
@@ -183,6 +209,88 @@ func serveGoroutines() int {
 		}
 		buf = make([]byte, 2*len(buf))
 	}
+}
+
+// newLifeLoader: a real loader.Loader with one secret configuration that covers the scripted connections' addresses, built
+// on the context Serve runs under
+func newLifeLoader(ctx context.Context) *loader.Loader {
+	lg := NewCapLog(nil, false)
+	ch := chanCfg{ch: make(chan config.ServerConfig, 1)}
+	ld, err := loader.NewLoader(ctx, ch,
+		loader.SetLoggerProvider(lg), loader.SetKeychainProvider(secret.New()), loader.SetConfigProvider(config.New()),
+		loader.SetAuthorizerProvider(stringy.New(lg)), loader.RegisterSecretProviderType(config.PREFIX, prefix.New(lg)),
+		loader.RegisterHandlerType(config.START, handlers.NewStart(lg)), loader.RegisterAuthenticator(config.BCRYPT, bcrypt.New(lg, okSecret{})))
+	if err != nil {
+		panic(err)
+	}
+	ch.ch <- renderCfg(&RCfg{Secrets: []RSecret{{Name: "life", NameB: BS("life"), Key: BS("lifekey"), Prefixes: []RPrefix{{S: "10.9.0.0/16"}}}},
+		Users: []RUser{{Name: BS("u"), Scopes: []string{"life"}}}})
+	ld.BlockUntilLoaded()
+	return ld
+}
+
+var goroutineHead = regexp.MustCompile(`(?m)^goroutine (\d+) \[([^\],]+)`)
+
+// blockedForGood: three goroutine dumps one second apart. True when, in all three, the same connection goroutines (those with
+// (*Server).serve on their stack) exist, every one of them is blocked (not running / runnable) at the same function, and that
+// function is not one of the harness's own waiting points. Returns the blocking functions.
+func blockedForGood() (string, bool) {
+	snap := func() (map[string]string, bool) {
+		buf := make([]byte, 1<<20)
+		buf = buf[:runtime.Stack(buf, true)]
+		out := map[string]string{}
+		for _, blk := range strings.Split(string(buf), "\n\n") {
+			if !strings.Contains(blk, "tacquito.(*Server).serve(") {
+				continue
+			}
+			m := goroutineHead.FindStringSubmatch(blk)
+			if m == nil {
+				continue
+			}
+			if m[2] == "running" || m[2] == "runnable" {
+				return nil, false
+			}
+			lines := strings.Split(blk, "\n")
+			top := ""
+			for _, ln := range lines[1:] {
+				if strings.HasPrefix(ln, "\t") || strings.HasPrefix(ln, "runtime.") || strings.HasPrefix(ln, "sync.") || strings.HasPrefix(ln, "internal/") {
+					continue
+				}
+				top = ln
+				break
+			}
+			if strings.HasPrefix(top, "main.") {
+				return nil, false // waiting inside the harness (a gate, a scripted read): not the server's doing
+			}
+			if i := strings.LastIndex(top, "("); i > 0 {
+				top = top[:i]
+			}
+			out[m[1]] = m[2] + " in " + top
+		}
+		return out, len(out) > 0
+	}
+	first, ok := snap()
+	if !ok {
+		return "", false
+	}
+	for k := 0; k < 2; k++ {
+		time.Sleep(time.Second)
+		next, ok := snap()
+		if !ok || len(next) != len(first) {
+			return "", false
+		}
+		for id, w := range first {
+			if next[id] != w {
+				return "", false
+			}
+		}
+	}
+	ws := []string{}
+	for _, w := range first {
+		ws = append(ws, w)
+	}
+	sort.Strings(ws)
+	return strings.Join(ws, "; "), true
 }
 
 var accMu sync.Mutex
@@ -228,9 +336,14 @@ func (r *lifeRun) run(sc *LScen) {
 		r.refuse[c] = true
 	}
 	r.ret = false
+	r.unsettled = false
 	r.rec.Emit(E{"e": "reset", "sc": sc.ID})
 	ctx, cancel := context.WithCancel(context.Background())
 	r.cancel = cancel
+	r.ld = nil
+	if sc.Loader {
+		r.ld = newLifeLoader(ctx)
+	}
 	srv := tq.NewServer(NewCapLog(nil, false), r)
 	r.served = make(chan struct{})
 	go func() {
@@ -441,6 +554,16 @@ func (r *lifeRun) run(sc *LScen) {
 		case <-time.After(2 * time.Second):
 		}
 	}
+	if !returned {
+		// every obligation of the environment is fulfilled (cancelled, gates open, deadlines expired): is the server blocked for good?
+		for c := range r.conns {
+			r.conns[c].EOF()
+		}
+		if where, ok := blockedForGood(); ok {
+			r.rec.Emit(E{"e": "blocked", "where": where})
+			r.nblocked++
+		}
+	}
 	g := ReadG4().Sub(base)
 	r.rec.Emit(E{"e": "fin", "returned": returned, "gs": g.Sess, "gh": g.Hand, "ga": g.Acc, "gr": g.Rout})
 	if !returned {
@@ -479,6 +602,11 @@ func cmdLife(args []string) {
 			}
 			r.run(&sc)
 			n++
+			if r.nblocked >= 3 {
+				// the server hangs for good in scenario after scenario (each costs seconds): the verdict is established
+				rec.Emit(E{"e": "reset", "sc": "aborted-after-" + sc.ID})
+				break
+			}
 		}
 		if rerr != nil {
 			break
